@@ -68,6 +68,15 @@ Denote(t) ==
       [] t.k = "GramH" -> MMul(MAdj(Denote(t.a[1])), Denote(t.a[1]))    \* Product(Adjoint(x), x)
       [] t.k = "GramHr" -> MMul(Denote(t.a[1]), MAdj(Denote(t.a[1])))   \* Product(x, Adjoint(x))
       [] t.k = "SelfProd" -> MMul(Denote(t.a[1]), Denote(t.a[1]))       \* Product(x, x): ONE object twice
+      \* Product(Adjoint(x[w1, :]), x[w2, :]) / Product(Transpose(x[w1, :]), x[w2, :]): two DIFFERENT row windows
+      \* (first and second half) of ONE object x - not a Gram matrix
+      [] t.k \in {"GramWinH", "GramWinT"} ->
+            LET D == Denote(t.a[1])
+                h == D.r \div 2
+                allc == [j \in 1..D.c |-> j]
+                S1 == MGather(D, [i \in 1..h |-> i], allc)
+                S2 == MGather(D, [i \in 1..h |-> h + i], allc)
+            IN MMul(IF t.k = "GramWinH" THEN MAdj(S1) ELSE MTr(S1), S2)
       [] t.k = "op_sub" -> MSub(Denote(t.a[1]), Denote(t.a[2]))
       [] t.k = "op_neg" -> MNeg(Denote(t.a[1]))
       [] t.k \in {"op_smul", "op_rsmul"} -> MScale(t.p.c, Denote(t.a[1]))      \* c * A, A * c
@@ -102,7 +111,7 @@ ShapeOf(t) ==
       [] t.k \in {"BlockDiag", "op_block_diag"} -> <<SumR(Len(t.a)), SumC(Len(t.a))>>
       [] t.k \in {"Transpose", "op_T", "Adjoint", "op_H"} -> <<S(1)[2], S(1)[1]>>
       [] t.k \in {"Sliced", "op_getitem"} -> <<Len(t.p.rows), Len(t.p.cols)>>
-      [] t.k \in {"GramT", "GramH"} -> <<S(1)[2], S(1)[2]>>
+      [] t.k \in {"GramT", "GramH", "GramWinH", "GramWinT"} -> <<S(1)[2], S(1)[2]>>
       [] t.k = "GramHr" -> <<S(1)[1], S(1)[1]>>
       [] t.k = "Concatenated" ->
             IF t.p.axis = 0 THEN <<SumR(Len(t.a)), S(1)[2]>> ELSE <<S(1)[1], SumC(Len(t.a))>>
@@ -121,6 +130,7 @@ WellFormed(t) ==
          [] t.k = "Concatenated" ->
               \A i \in 2..Len(t.a): ShapeOf(t.a[i])[2 - t.p.axis] = ShapeOf(t.a[1])[2 - t.p.axis]
          [] t.k \in {"op_rdiv", "op_inv", "op_pow", "SelfProd"} -> ShapeOf(t.a[1])[1] = ShapeOf(t.a[1])[2]
+         [] t.k \in {"GramWinH", "GramWinT"} -> ShapeOf(t.a[1])[1] >= 2
          [] OTHER -> TRUE
 
 \* definitional dtype: the promoted dtype of the dense computation
